@@ -654,6 +654,18 @@ func (g *Gen) walk(out *[]*Var, t reflect.Type, c ctx, path string, get getter, 
 			v.Set(g.slice(t, c, 3))
 			return true
 		})
+		// a nil element: the encoder may refuse it, but what it encodes the decoder must accept (kind niloneof: relaxed)
+		add("nil-element", "niloneof", false, func(root reflect.Value) bool {
+			v, ok := get(root)
+			if !ok {
+				return false
+			}
+			sl := g.slice(t, c, 1)
+			ns := reflect.MakeSlice(t, 2, 2) // [element, nil]
+			ns.Index(0).Set(sl.Index(0))
+			v.Set(ns)
+			return true
+		})
 		eget := func(root reflect.Value) (reflect.Value, bool) {
 			v, ok := get(root)
 			if !ok || v.Len() == 0 || v.Index(0).IsNil() {
@@ -682,6 +694,16 @@ func (g *Gen) walk(out *[]*Var, t reflect.Type, c ctx, path string, get getter, 
 				return false
 			}
 			v.Set(g.mapOf(t, c, 3))
+			return true
+		})
+		add("nil-value", "niloneof", false, func(root reflect.Value) bool {
+			v, ok := get(root)
+			if !ok {
+				return false
+			}
+			mp := g.mapOf(t, c, 1)
+			mp.SetMapIndex(reflect.ValueOf(uint32(7)), reflect.Zero(t.Elem()))
+			v.Set(mp)
 			return true
 		})
 		eget := func(root reflect.Value) (reflect.Value, bool) {
@@ -856,6 +878,9 @@ func (g *Gen) canon(v reflect.Value, c ctx) {
 			v.Set(reflect.MakeMap(t))
 		}
 		for _, k := range v.MapKeys() {
+			if e := v.MapIndex(k); e.Kind() == reflect.Pointer && e.IsNil() {
+				v.SetMapIndex(k, reflect.New(t.Elem().Elem())) // canonical form of a nil value: the zero struct
+			}
 			g.canon(v.MapIndex(k), c) // elements are pointers
 		}
 	case reflect.Interface:
